@@ -1,5 +1,6 @@
 import Gallia.Proofs.Lemmas.Lines
 import Gallia.Proofs.Lemmas.LinesExec
+import Gallia.Gen.C19Lines
 /-
   C19 — Line-based transports deliver every message intact, in order, one per read.
   Property theorems only; helper lemmas are in `Proofs/Lemmas/Lines.lean`.
@@ -269,6 +270,40 @@ theorem request_is_write_then_read (c : Client) (pre post : List Op) (m : Bytes)
     two lines in one chunk and the end of the stream inside a line -/
 example : (crun {} [.feed [0x33], .read, .feed [0x65, 0x0A, 0x31, 0x30, 0x0A, 0x32], .read, .read, .read, .eof, .read]).2 =
     [.ok, .res .pending, .ok, .res (.msg [0x3e]), .res (.msg [0x10]), .res .pending, .ok, .res .eos] := by decide
+
+/-! ### obligations against the tables regenerated from the code (`gen/c19_lines.py` -> `Gen/C19Lines.lean`) -/
+
+/-- the code facts the model rests on, as read off the AST on this run: `write` hands `hexlify(data) + b"\n"` to the
+    stream, returns `len(data)` and has no size guard; `read` is `readline` under `wait_for`, the newline test, `decode()`,
+    `strip()`, `unhexlify`; `request_unsafe` is `write` then `read` and `request` runs it under the transport mutex;
+    neither the clients' connect calls nor the servers' `run()` pass a `limit` (or any keyword) to asyncio; the server
+    loop body is readline / newline test -> break / decode("ascii") / strip() / unhexlify / handle_request / reply only
+    `if ... is not None` / hexlify + newline / drain, any `Exception` -> break; the unix server only overrides `run` -/
+theorem code_facts_agree :
+    Gen.C19Lines.writeGuards = [] ∧
+    Gen.C19Lines.writeArg = "binascii.hexlify(data) + b'\\n'" ∧
+    Gen.C19Lines.writeReturns = ["len(data)"] ∧
+    Gen.C19Lines.readCalls = ["readline()", "wait_for(self.get_reader().readline(), timeout)", "endswith(b'\\n')",
+      "decode()", "strip()", "unhexlify(d)"] ∧
+    Gen.C19Lines.requestUnsafeCalls = ["write", "read"] ∧ Gen.C19Lines.requestLocked = true ∧
+    Gen.C19Lines.connectTcpKw = ([], 2) ∧ Gen.C19Lines.connectUnixKw = ([], 1) ∧
+    Gen.C19Lines.runTcpKw = ([], 3) ∧ Gen.C19Lines.runUnixKw = ([], 2) ∧
+    Gen.C19Lines.loopCalls = ["readline", "endswith", "decode", "strip", "unhexlify", "handle_request", "append",
+      "hexlify", "write", "drain"] ∧
+    Gen.C19Lines.loopDecodeArgs = ["'ascii'"] ∧ Gen.C19Lines.loopStripArgs = [] ∧
+    Gen.C19Lines.loopExcepts = [("Exception", "Break")] ∧
+    Gen.C19Lines.loopIfs = [("not line.endswith(b'\\n')", "Break"), ("uds_response_raw is not None", "Expr")] ∧
+    Gen.C19Lines.loopWriteArgs = ["hexlify(uds_response_raw) + b'\\n'"] ∧
+    Gen.C19Lines.unixServerMethods = ["run"] ∧ Gen.C19Lines.unixServerBases = ["TCPUDSServerTransport"] := by
+  decide
+
+/-- the only length limit on either side is the StreamReader's (asyncio default, no `limit` passed - see above): every
+    line of a message of the property's range (1..4095 bytes), and of any message up to 32767 bytes, fits -/
+theorem limits_admit_property_range (m : Bytes) (h : m.length ≤ 32767) :
+    (enc m).length ≤ Gen.C19Lines.defaultLimit := by
+  rw [enc_length]
+  have : Gen.C19Lines.defaultLimit = 65536 := by decide
+  omega
 
 /-! ### the server loop as a whole execution (`srvLoop`, `srvFeed`, `srvEof`) -/
 
